@@ -187,7 +187,12 @@ async fn single_ops(ctx: &Ctx, rng: &mut Rng, epmd: &net::EpmdTable, offers: (bo
             let too_long = "x".repeat(*rng.pick(&[65_536usize, 70_000]));
             let fresh = format!("fresh_atom_{}", uid);
             let bad = OwnedTerm::Tuple(vec![OwnedTerm::atom(&fresh), OwnedTerm::Integer(1), OwnedTerm::Binary(vec![7; 40]), OwnedTerm::atom(&too_long)]);
-            let (what, r) = match rng.below(3) {
+            // more distinct atoms than one distribution header can announce: sendable as it is in pass-through mode; in
+            // header mode either refused, or sent in the negotiated mode - never as a frame of the other mode
+            let many = OwnedTerm::List((0..300).map(|i| OwnedTerm::atom(&format!("atom_{}_{}", uid, i))).collect());
+            let (what, r) = match rng.below(5) {
+                3 => ("send:payload-with-300-distinct-atoms", conn.send_message(from_pid.clone(), to_pid.clone(), many).await),
+                4 => ("send_to_name:payload-with-300-distinct-atoms", conn.send_to_name(from_pid.clone(), Atom::new("rex"), many).await),
                 0 => ("send:payload-with-an-atom-the-format-cannot-carry", conn.send_message(from_pid.clone(), to_pid.clone(), bad).await),
                 1 => ("send_to_name:payload-with-an-atom-the-format-cannot-carry", conn.send_to_name(from_pid.clone(), Atom::new("rex"), bad).await),
                 _ => ("send_to_name:name-the-format-cannot-carry", conn.send_to_name(from_pid.clone(), Atom::new(&too_long), OwnedTerm::atom(&fresh)).await),
@@ -200,7 +205,7 @@ async fn single_ops(ctx: &Ctx, rng: &mut Rng, epmd: &net::EpmdTable, offers: (bo
                 (true, Ok(Some(f))) => {
                     // reported as sent: then it has to be readable
                     if let Err(e) = read_frame(&f, header_mode, &mut cache) {
-                        ctx.viol(&format!("C07:unparsable:{}", what), "an operation with an argument the format cannot carry was reported successful and its frame is not well-formed", json!({"op": what, "error": e, "frame": hex_cap(&f, 64)}));
+                        ctx.viol(&format!("C07:unparsable:{}", what), "an operation at the limits of what can be sent was reported successful and its frame is not well-formed in the negotiated framing mode", json!({"op": what, "negotiated_mode": if header_mode { "distribution header" } else { "pass-through" }, "error": e, "frame": hex_cap(&f, 64)}));
                     }
                 }
                 (true, _) => ctx.viol(&format!("C07:no-frame:{}", what), "the operation returned Ok but the peer received no frame", json!({"op": what})),
